@@ -236,17 +236,19 @@ TRUSTED = [
     "int and uint are 64 bits wide (the check runs on a 64-bit platform)",
     "text/template + gofmt + goimports: the meaning of enumer.tmpl is given by hand (Model/Enum.v section "
     "Generated); Go map literals/lookup, slices, fmt %d as assoc lists, lists, decimal printing",
-    "sort.Slice is modelled by an insertion sort with the same comparator (on duplicate-free values the result "
-    "is unique); compile errors of the generated file are modelled only for the stale guard index and duplicate "
+    "sort.SliceStable is modelled by a stable insertion sort with the same comparator (the stable sorted "
+    "arrangement is unique); compile errors of the generated file are modelled only for the stale guard index and duplicate "
     "map keys (Enum.compiles)",
-    "packages.Load presents the files in file-name order (only matters for duplicate values, which are guarded)",
+    "packages.Load presents the files in file-name order (decides which of two aliases declared in different files "
+    "is the first declared name; exercised by the run)",
 ]
 
 ASSUMPTIONS = [
     "guards of the theorems (decidable, Properties/C04.v enum_guard): the package compiles; no spec's type is only "
-    "inferred from its expression such as `AB = A | B` (open finding K_enum_implicit_type); no two constants of the type "
-    "with one value (open finding K_enum_dup) or with one trimmed name; each excluded class has a refutation "
-    "theorem C04_refuted_<K> and its witness is replayed against the binary on every run",
+    "inferred from its expression such as `AB = A | B` (open finding K_enum_implicit_type, with a refutation theorem "
+    "and a witness replayed on every run); no two constants of the type with one trimmed name.  Aliases (several "
+    "constants with one value; K_enum_dup, repaired) and qualified-type specs (K_enum_foreign_carry, repaired) are "
+    "inside the guard and inside the comparison stream",
     "the comparison stream stays inside the guard (checked per case inside Coq: EnumCorr.in_guard; a case in the "
     "guard on which the MODEL's observation fails the boolean property is reported, verdict code 3); type names "
     "that collide after camelCase (Level/level) are kept out (C01)",
